@@ -319,8 +319,11 @@ def playback(ws, group, harness_rec, pid):
         chosen.append(t)
     res = {"playback_cmd": " ".join(cmd), "tests": chosen, "native": None}
     if not chosen:
-        res["native"] = "no-counterexample-produced"
-        return res
+        # a harness without symbolic input IS its own witness: call it directly
+        fn = name.split("::")[-1]
+        chosen = ["#[test]\nfn kani_concrete_playback_direct_%s() {\n    %s();\n}\n" % (fn, fn)]
+        res["tests"] = chosen
+        res["direct_call"] = True
     crate_mod = group["crate"].replace("-", "_")
     pbfile = os.path.join(ws, "pb_%s.rs" % crate_mod)
     module = harness_rec["full"].split("::")[-2]
